@@ -14,7 +14,7 @@ from math import factorial
 from typing import Dict, List, Optional, Tuple
 
 from ..elements import load_refdoms, RefdomInfo
-from ..interp import ClassRef, PyFunc, Arr, Interp, Unsupported, Raised
+from ..interp import Obj, ClassRef, PyFunc, Arr, Interp, Unsupported, Raised
 from ..model import staged, AnalysisError, FuncInfo, Model, src
 from ..poly import Poly
 
@@ -270,6 +270,90 @@ def _audit_generated(rep, R1, fname, fn, r, dim, val, gauss):
         rep.fail(R1, F, fname, f"{cons}:degree",
                  f"the rule generated for order {r} does not integrate "
                  f"x^{worst[0]} exactly: {worst[1]}", fn.lineno)
+
+
+def _dispatch_semantic(model: Model, rep, refdoms):
+    """get_quadrature interpreted for every Refdom subclass (given as the
+    class and through an element-like object carrying .refdom): a rule of
+    the cell's own dimension comes back; simplices get exactly what their
+    own table function returns; an unknown reference domain raises."""
+    R4 = "C08-R4"
+    fn = model.func(QMOD, "get_quadrature")
+    own = {"RefTri": "get_quadrature_tri", "RefTet": "get_quadrature_tet",
+           "RefLine": "get_quadrature_line",
+           "RefPoint": "get_quadrature_point"}
+
+    def call(arg, r):
+        g = _GaussSym()
+        it = Interp(model, call_hook=g.hook, attr_hook=g.attr_hook)
+        return it.call(fn, [arg, r], {}), g
+
+    def same(a, b):
+        if isinstance(a, tuple) and isinstance(b, tuple):
+            return len(a) == len(b) and all(same(x, y)
+                                            for x, y in zip(a, b))
+        if isinstance(a, Arr) and isinstance(b, Arr):
+            return a.shape == b.shape and a.flat() == b.flat()
+        return a == b
+    for name, rd in sorted(refdoms.items()):
+        for how in ("class", "element"):
+            arg = ClassRef(rd.cls) if how == "class" else Obj(
+                None, {"refdom": ClassRef(rd.cls)})
+            cons = f"dispatch[{name},{how}]"
+            try:
+                val, g = call(arg, 3)
+            except Raised as e:
+                rep.fail(R4, F, "get_quadrature", cons,
+                         f"no rule is returned for {name} ({e.what[:60]})",
+                         fn.lineno)
+                continue
+            except Unsupported as e:
+                if name == "RefWedge":
+                    # line x triangle construction (repeat / tile): its
+                    # content is the business of C08-R3; reaching it means
+                    # the dispatch took the wedge branch
+                    rep.ok(R4, cons, "the prism branch is taken (rule "
+                           "audited by C08-R3)")
+                    continue
+                raise AnalysisError(f"get_quadrature({name}): {e}")
+            X = val[0] if isinstance(val, tuple) and len(val) == 2 else None
+            nrows = (len(X.data) if isinstance(X, Arr) and X.data
+                     and isinstance(X.data, list) else None)
+            if isinstance(X, Arr) and X.shape and X.shape[0] == 0:
+                nrows = 0
+            ok = nrows == rd.dim
+            if ok and name in own:
+                try:
+                    g2 = _GaussSym()
+                    ref = Interp(model, call_hook=g2.hook,
+                                 attr_hook=g2.attr_hook).call(
+                        model.func(QMOD, own[name]), [3], {})
+                except (Raised, Unsupported) as e:
+                    raise AnalysisError(f"{own[name]}(3): {e}")
+                ok = same(val, ref)
+            if ok:
+                rep.ok(R4, cons, f"a {rd.dim}-dimensional rule"
+                       + (f" = {own[name]}(n)" if name in own else ""))
+            else:
+                rep.fail(R4, F, "get_quadrature", cons,
+                         f"get_quadrature({name}, 3) returns points with "
+                         f"{nrows} coordinate rows"
+                         + (f" / not what {own[name]}(3) returns"
+                            if name in own else "")
+                         + f": not the rule of the {rd.dim}-dimensional "
+                         f"reference cell {name}", fn.lineno)
+    # an unknown reference domain
+    base = model.class_by_name("Refdom")
+    try:
+        call(ClassRef(base), 2)
+        rep.fail(R4, F, "get_quadrature", "dispatch[unknown]",
+                 "a reference domain without a rule gets one instead of an "
+                 "error", fn.lineno)
+    except Raised:
+        rep.ok(R4, "dispatch[unknown]", "an unsupported reference domain "
+               "raises")
+    except Unsupported as e:
+        raise AnalysisError(f"get_quadrature(Refdom): {e}")
 
 
 def _audit_boxes(model: Model, rep, refdoms):
@@ -1014,7 +1098,8 @@ def run(model: Model, rep, tier: str) -> None:
             if name in seen:
                 _check_tensor_branch(model, rep, fn, refdoms, refdoms[name],
                                      seen[name].body, seen[name].lineno)
-    staged(lambda: _audit_boxes(model, rep, refdoms),
+    staged(lambda: _dispatch_semantic(model, rep, refdoms),
+           lambda: _audit_boxes(model, rep, refdoms),
            lambda: _audit_line(model, rep), tensor_stage)
     # the point rule
     pf = model.func(QMOD, "get_quadrature_point")
